@@ -40,6 +40,13 @@ func (c *CriteriaSplitCondition) Spec_SplitCriteriaByOrdering(sortedCriteria *mo
 	} else if pivot > c.Max {
 		pivot = c.Max
 	}
+	// C07: never more than there are (an earlier bias may have removed criteria), never less than none
+	if criteriaCount < pivot {
+		pivot = criteriaCount
+	}
+	if pivot < 0 {
+		pivot = 0
+	}
 	left := (*sortedCriteria)[0:pivot]
 	right := (*sortedCriteria)[pivot:]
 	return &CriteriaPartition{
